@@ -164,23 +164,30 @@ func (lateDoneCtx) Done() <-chan struct{} { return nil }
 // thread at any point (or before the call, or never).
 func attemptScenario() {
 	count := 1 + vrt.Choose(3, 0)
-	pace := vrt.Choose(3, 0)  // 0 prompt, 1 slow (sleeps 2.5 ticks between receives), 2 absent
-	cmode := vrt.Choose(4, 0) // 0 never, 1 before the call, 2 concurrent, 3 concurrent with a context whose Done never fires
+	pace := vrt.Choose(3, 0) // 0 prompt, 1 slow (sleeps 2.5 ticks between receives), 2 absent
+	// 0 never, 1 before the call, 2 concurrent, 3 concurrent with a context whose Done never fires,
+	// 4 before the call with such a context, 5 a deadline (18ms) that does not fall on a tick
+	cmode := vrt.Choose(6, 0)
 	rate := 10 * time.Millisecond
 	vrt.Log("config", count, pace, cmode)
 	ctx, cancel := context.WithCancel(context.Background())
 	defer cancel()
-	if cmode == 1 {
+	if cmode == 1 || cmode == 4 {
 		cancel()
 		vrt.Log("cancelled", int(vrt.Elapsed()))
 	}
-	if cmode == 3 {
+	if cmode == 3 || cmode == 4 {
 		ctx = lateDoneCtx{ctx} // cancellation is visible through Err() only
+	}
+	if cmode == 5 {
+		var c2 context.CancelFunc
+		ctx, c2 = context.WithTimeout(ctx, 18*time.Millisecond)
+		defer c2()
 	}
 	c := LinearAttempt(ctx, rate, count)
 	vrt.Log("returned", len(c))
 	done := make(chan struct{})
-	if cmode >= 2 {
+	if cmode == 2 || cmode == 3 {
 		go func() {
 			// the canceller may also let some virtual time pass first
 			if vrt.Choose(2, 0) == 1 {
@@ -207,7 +214,7 @@ func attemptScenario() {
 		time.Sleep(35 * time.Millisecond)
 		vrt.Log("buffered", len(c))
 		<-done
-		if cmode != 1 {
+		if cmode != 1 && cmode != 4 {
 			vrt.Log("cancel-call", int(vrt.Elapsed()))
 			cancel()
 			vrt.Log("cancelled", int(vrt.Elapsed()))
@@ -228,7 +235,8 @@ func attemptScenario() {
 		}
 		t, ok := <-c
 		if !ok {
-			vrt.Log("closed", int(vrt.Elapsed()))
+			// closed: by then either count values were delivered or the context is cancelled
+			vrt.Log("closed", int(vrt.Elapsed()), ctx.Err() != nil)
 			break
 		}
 		vrt.Log("recv", int(t.UnixNano()), int(vrt.Elapsed()))
